@@ -126,9 +126,43 @@ def replayer(v):
     return (False, 'native run leaves the caller variables and the handle table as they were')
 
 
+def body_replayer(v):
+    def q(a): return '"%s"' % a.replace('\\', '\\\\').replace('"', '\\"').replace('\n', '\\n').replace('\r', '\\r').replace('\t', '\\t')
+    lines = []; hv = []
+    for i, (kind, items) in enumerate(v['colls']):
+        var = 'hh%d' % i; hv.append(var)
+        if kind == 'arr': lines.append('%s = array %s' % (var, ' '.join(q(x) for x in items)))
+        elif kind == 'set': lines.append('%s = set_new %s' % (var, ' '.join(q(x) for x in items)))
+        else:
+            lines.append('%s = map' % var)
+            for j, x in enumerate(items): lines.append('map_put ${%s} %s v%d' % (var, q(x), j))
+    call = []; hi = 0
+    for a, k in zip(v['args'], v['argkinds']):
+        if k in ('arr', 'map', 'set'): call.append('${%s}' % hv[hi]); hi += 1
+        elif k == 'name': call.append(a)
+        else: call.append(q(a))
+    lines.append('rr = %s %s' % (v['cmd'], ' '.join(call)))
+    for var in hv: lines.append('release ${%s}' % var)
+    if REAL[v['cmd']][2] == 'new': lines.append('release ${rr}')
+    lines.append('rr = set done')
+    out = H.replay(dict(mode='sdk', script='\n'.join(lines), vars=v['caller'])); v['native'] = out; v['script'] = lines
+    if out.get('panic'): return (True, 'native panic')
+    if not out.get('ok'): return (None, 'replay script failed: %r' % (out.get('error'),))
+    exp = dict(v['caller'])
+    if v['cmd'] == 'unset':
+        for a in v['args']: exp.pop(a, None)
+    got = {k: x for k, x in out['vars'].items() if k not in hv and k != 'rr'}
+    if got != exp: return (True, 'caller variables after the call natively: %r, expected %r' % (got, exp))
+    if out.get('handles', 0) != 0: return (True, '%d handle(s) left behind natively' % out['handles'])
+    return (False, 'native run leaves the caller variables and the handle table as they were')
+
+
 def main(tier, seed):
     chk = H.Check(PID, tier, seed)
-    chk.replayer = replayer
+    chk.replayer = lambda v: body_replayer(v) if v.get('kind') == 'c19_body' else replayer(v)
+    for c_ in REAL:
+        if c_ == 'concat' and tier == 'quick': continue          # ~6 min (string building through repeated template expansion): thorough tier only
+        chk.job(job_real_body, 'body:' + c_, cmd=c_, vcap=1 if c_ == 'concat' else 2)
     vcap = 2 if tier == 'quick' else 3
     for n in range(0, 4): chk.job(job_wrapper, 'wrapper:%dargs' % n, nargs=n, vcap=vcap)
     chk.bounds = dict(arguments='0..3', value_chars=vcap, caller_variables=3, handles='0..2')
@@ -139,3 +173,116 @@ def main(tier, seed):
                        'put_handle: arbitrary non-live key']
     results = chk.run()
     return chk.finish(results, 'every obligation is a solver query over all arguments, caller variables, handle tables and body behaviours within the contract')
+
+
+# ---------------------------------------------------------------------- the real bodies of script-implemented commands
+REAL = {
+    # command: (module path, arguments as (kind,...), effect)   kinds: 'name' variable name from the pool, 'val' arbitrary value, 'arr'/'map'/'set' a live handle of that kind
+    'unset': ('sdk::std::var::unset', ('name', 'name'), 'unset'),
+    'concat': ('sdk::std::string::concat', ('val',), None),
+    'map_contains_key': ('sdk::std::collections::map_contains_key', ('map', 'val'), None),
+    'array_is_empty': ('sdk::std::collections::array_is_empty', ('arr',), None),
+    'set_is_empty': ('sdk::std::collections::set_is_empty', ('set',), None),
+    'map_is_empty': ('sdk::std::collections::map_is_empty', ('map',), None),
+    'set_from_array': ('sdk::std::collections::set_from_array', ('arr',), 'new'),
+}
+
+
+def job_real_body(ctx, jr, cmd, vcap):
+    """the REAL body (script.ds as compiled into the MIR constants of the current tree) of a script-implemented command, run through
+    the real AliasCommand::run / eval_instructions / runner::run_instruction and the real commands its body uses, with symbolic
+    arguments and caller variables: afterwards the caller variables are exactly as before (minus what the command is documented to
+    remove), nothing else remains, and the handle table is as before (plus the returned collection, where the command returns one)"""
+    from conformance.scripts import sdk_commands
+    from .c12 import map_eq
+    mod, argk, effect = REAL[cmd]
+    names_pool = ['a', 'scope::%sx::y' % cmd, 'scope::%s' % cmd, 'zz', 'scope::%s:n' % cmd]
+    jr.bounds = dict(command=cmd, arguments=list(argk), value_chars=vcap, caller_variables='3 symbolic picks from %r' % (names_pool,), collections='0..2 elements, symbolic',
+                     body='the real script text, parsed and run by the real code')
+    vs = ctx.types.enums[SV]; STR, LIST, SET, SUB = vs.index('String'), vs.index('List'), vs.index('Set'), vs.index('SubState')
+    e = ctx.engine(unwind=40, max_rec=6); e.int_digits = 2
+    e.hooks['utils::state::put_handle'] = hook_put_handle
+    e.hooks['std::sync::atomic::Atomic::<bool>::load'] = lambda eng, st1, a, c: False
+    t0 = time.time()
+    st = State(True, {})
+    # the command under test, created by its own create()
+    e.unwind = 5000                    # concrete phase: parsing the script text of the body
+    st, r_ = e.run('sdk', mod + '::create', [mk_str('std')], st)
+    if st is None or r_.d != 0: raise Abort('create() of %s failed' % cmd)
+    boxed = r_.p[0][0]; selfv = e.deref(st, boxed) if isinstance(boxed, (P, PV)) else boxed
+    e.unwind = 160                     # above the longest line / template of a body (expand_by_wrapper and the scanner walk them char by char)
+    body_text = str_concrete(selfv.f[4]) or ''
+    # the Rust commands its body uses, registered through the real Commands::set
+    cmds = sdk_commands()
+    st.m[(0, 'cmds')] = T([M([]), M([])], 'types::command::Commands')
+    done = set()
+    for tok in sorted(set(body_text.replace('\n', ' ').split())):
+        if tok in cmds and cmds[tok][0] not in done:
+            ty, nf = cmds[tok]; done.add(ty)
+            st, r2 = e.run('core', 'types::command::Commands::set', [P(0, 'cmds'), e.alloc(st, T([mk_str('::'.join(ty.split('::')[1:-2]))] * nf, ty))], st)
+    for ty_, nf in set((cmds[k][0], cmds[k][1]) for k in cmds if 'flowcontrol' in cmds[k][0]):
+        if ty_ not in done:
+            done.add(ty_); st, r2 = e.run('core', 'types::command::Commands::set', [P(0, 'cmds'), e.alloc(st, T([mk_str('std::flowcontrol')] * nf, ty_))], st)
+    # script-implemented helpers used by other bodies (array_concat uses none; map_*_is_empty are themselves bodies)
+    # caller variables
+    cn = [e.fresh_int('cv%d.name' % i, 0, len(names_pool) - 1) for i in range(3)]
+    cp = [e.fresh_bool('cv%d.present' % i) for i in range(3)]
+    cval = [H.sym_str(e, 'cv%d.val' % i, vcap) for i in range(3)]
+    e.assume(z3.And(cn[0] < cn[1], cn[1] < cn[2]))
+    pre_vars = M([(cp[i], choose(cn[i], names_pool), cval[i]) for i in range(3)])
+    # live collections
+    colls_sym = {}
+
+    def coll(tag, kind):
+        n = e.fresh_int('%s.len' % tag, 0, 2); items = [H.sym_str(e, '%s.%d' % (tag, i), vcap) for i in range(2)]
+        colls_sym[tag] = (kind, n, items)
+        if kind == 'arr': return E(SV, LIST, {LIST: [V(n, [E(SV, STR, {STR: [x]}) for x in items])]})
+        if kind == 'set':
+            e.assume(z3.Implies(n == 2, z3.Not(str_eq(items[0], items[1]))))
+            return E(SV, SET, {SET: [M([(n > i, items[i], UNIT) for i in range(2)])]})
+        e.assume(z3.Implies(n == 2, z3.Not(str_eq(items[0], items[1]))))
+        return E(SV, SUB, {SUB: [M([(n > i, items[i], E(SV, STR, {STR: [mk_str('v%d' % i)]})) for i in range(2)])]})
+    args = []; hents = []
+    for i, k in enumerate(argk):
+        if k == 'val': args.append(H.sym_str(e, 'arg%d' % i, vcap))
+        elif k == 'name': args.append(choose(e.fresh_int('arg%d.name' % i, 0, len(names_pool) - 1), names_pool))
+        else:
+            key = mk_str('handle:P%d' % i); hents.append((True, key, coll('coll%d' % i, k))); args.append(key)
+    htab = M(hents)
+    state = M([(True, mk_str('handles'), E(SV, SUB, {SUB: [htab]}))])
+    ctxv, st2 = invocation_context(e, V(len(args), args))
+    st2.m.update({k: v for k, v in st.m.items() if k not in st2.m or k == (0, 'cmds')})
+    st2.m[(0, 'state')] = state; st2.m[(0, 'vars')] = pre_vars
+    f = e.find_method('types::command::AliasCommand', 'Command', 'run', 'sdk')
+    rs, rv = e.call_fn(f, st2, [PV(selfv), ctxv])
+    jr.symex_time = time.time() - t0
+    if rs is None: raise Abort('never returns')
+    post_vars = e.read(rs, ('mem', 0, 'vars', [])); post_state = e.read(rs, ('mem', 0, 'state', []))
+    checks = [('the command does not crash', zand(rv.d != 3))]
+    removed = lambda nm: zor(*[str_eq(a, nm) for a, k in zip(args, argk) if k == 'name']) if effect == 'unset' else False
+    cnt_exp = 0
+    for i in range(3):
+        nm = choose(cn[i], names_pool)
+        f_, v_, _ = map_lookup(e, rs, post_vars, nm)
+        keep = zand(cp[i], znot(removed(nm)))
+        own = str_eq(nm, mk_str('scope::%s' % cmd)) if False else False
+        checks.append(('caller variable %d is as before (or removed, for unset)' % i, zand(zeq(f_, keep), zimp(keep, str_eq(v_, cval[i]) if v_ is not POISON else False))))
+        cnt_exp = cnt_exp + zite(keep, 1, 0)
+    cnt = 0
+    for p, kk, vv in post_vars.ents: cnt = cnt + zite(p, 1, 0)
+    checks.append(('no other variable remains (no working variable of the body, no published argument)', zeq(cnt, cnt_exp)))
+    pf, psub, _ = map_lookup(e, rs, post_state, mk_str('handles'))
+    ptab = psub.p[SUB][0] if isinstance(psub, E) and SUB in psub.p else M([])
+    hc = 0
+    for p, kk, vv in ptab.ents: hc = hc + zite(p, 1, 0)
+    ok_run = zand(rv.d != 2, rv.d != 3)
+    checks.append(('the collections of the caller are untouched', zand(*[zand(map_lookup(e, rs, ptab, k_)[0], sv_eq(e, rs, map_lookup(e, rs, ptab, k_)[1], v_)) for p_, k_, v_ in hents]) if hents else True))
+    checks.append(('no temporary collection is left behind', zeq(hc, len(hents) + (zite(ok_run, 1, 0) if effect == 'new' else 0))))
+    for msg_, c in checks: e.obligations.append(Obligation(rs.g, c, 'C19 real body of %s: %s' % (cmd, msg_), 'assert', 'oracle'))
+
+    def extract(m, o=None):
+        return dict(kind='c19_body', cmd=cmd, args=[solve.model_str(m, a) for a in args], caller={names_pool[solve.model_int(m, cn[i])]: solve.model_str(m, cval[i]) for i in range(3) if solve.model_bool(m, cp[i])},
+                    colls=[(k_, [solve.model_str(m, x) for x in it_[:solve.model_int(m, n_)]]) for tag_, (k_, n_, it_) in sorted(colls_sym.items())], argkinds=list(argk))
+    res = discharge_known(e, jr, PID, {}, extract)
+    witness(jr, e, 'real body of %s runs to a result' % cmd, rs.g, extract)
+    H.finish_job(jr, e, res)
